@@ -1738,7 +1738,7 @@ vnaproperty_t *vnaproperty_vget_subtree(const vnaproperty_t *root,
 
 out:
     parser_free(&parser);
-    return *anchor;
+    return anchor != NULL ? *anchor : NULL;
 }
 
 /*
